@@ -7,6 +7,7 @@ package main
 import (
 	"fmt"
 	"os"
+	"runtime/debug"
 	"strconv"
 )
 
@@ -20,6 +21,17 @@ func main() {
 	if len(os.Args) < 3 {
 		fmt.Fprintln(os.Stderr, "usage: wsdiff <prop|replay> <tier|file> [seed]")
 		os.Exit(2)
+	}
+	if os.Args[1] == "child" {
+		// one operation in a process of its own (see the iso op): a crash of the runtime stays the child's
+		debug.SetMaxStack(32 << 20)
+		h, ok := ops[os.Args[2]]
+		if !ok {
+			fmt.Println("UNKNOWN-OP")
+			return
+		}
+		fmt.Println(guard(func() string { return h(os.Args[3:]) }))
+		return
 	}
 	defer out.Flush()
 	if os.Args[1] == "replay" {
